@@ -181,7 +181,8 @@ class CIMNamespaceProvider(InstanceWriteProvider):
         # Allows namespace to exist but fails if and instance of
         # CIMInstanceName exists with this name
 
-        if new_namespace not in self.cimrepository.namespaces:
+        namespace_added = new_namespace not in self.cimrepository.namespaces
+        if namespace_added:
             self.add_namespace(new_namespace)
         else:
             # If instance exists of CIM_Namespace for this new_instance.name
@@ -201,9 +202,16 @@ class CIMNamespaceProvider(InstanceWriteProvider):
                             namespace))
 
         # Create the CIM instance for the new namespace in the CIM repository,
-        # by delegating to the default provider method.
-        return super().CreateInstance(
-            namespace, new_instance)
+        # by delegating to the default provider method. If that fails, a
+        # namespace added above is removed again, so that a failed operation
+        # leaves the CIM repository unchanged.
+        try:
+            return super().CreateInstance(
+                namespace, new_instance)
+        except CIMError:
+            if namespace_added:
+                self.cimrepository.remove_namespace(new_namespace)
+            raise
 
     def ModifyInstance(self, modified_instance, IncludeQualifiers=None):
         """
